@@ -42,7 +42,7 @@ Consts == {C("2", "num", 0), C("2.0", "num", 0), C("1.5", "num", 0), C("-3", "nu
            C("[0.000001, 2.5]", "arr", 2), C("[10000000000000000.5, 2.5]", "arr", 2), C("[9223372036854775808, 1]", "arr", 2),
            C("[9223372036854775808, \"a\"]", "other", 0), C("[Graph { A -> [B], B }]", "other", 0), C("0.000001", "num", 0),
            \* a range written as a function call, where the a..b spelling is not grammatical
-           C("range(0, 3, false)", "arr", 3), C("range(1, 3, true)", "arr", 3)}
+           C("5000000000.0 * 5000000000", "num", 0), C("4.0 / 2", "num", 0), C("range(0, 3, false)", "arr", 3), C("range(1, 3, true)", "arr", 3)}
 Uses(c) == CASE c.kind = "num" -> {"coef", "rhs", "none"}
               [] c.kind = "arr" -> {"access", "sum", "len", "none"}
               [] c.kind = "mat" -> {"access2", "rows", "none"}
